@@ -92,7 +92,7 @@ def gen_cases(tier, seed, behs):
                 ops.append({"op": "hb", "byte": rng.randrange(256)})
         cases.append({"nid": nid, "ops": ops, "src": "random"})
     # waits: with feeder (parked waiter), without (small timeout)
-    for _ in range(8 if tier == "quick" else 60):
+    for _ in range(10 if tier == "quick" else 60):
         ops = []
         for _ in range(4):
             kind = rng.choice(["hb", "boot"])
@@ -107,6 +107,9 @@ def gen_cases(tier, seed, behs):
                 w["feed"] = [rng.choice([5, 127, 4, 0x85]) for _ in range(rng.randrange(1, 3))] + [rng.choice([5, 127]), 0]
                 w["late_from"] = len(w["feed"]) - 2
                 w["timeout"] = 5
+            if feed and "late_from" not in w and rng.random() < (0.8 if kind == "hb" else 0.3):
+                # (mostly a reset command for this node or for all nodes: it changes the state for sure)
+                w["inject"] = [rng.choice([129, 129, 130, 1, 2, 128]), rng.choice([0, 5, 5, 99])]
             ops.append(w)
             ops.append({"op": "cmd", "who": "master", "code": rng.choice([1, 2, 128])})
         cases.append({"nid": 5, "ops": ops, "src": "wait"})
